@@ -27,7 +27,7 @@ func init() {
 		Phases: func(tier string, seed int64) []Phase {
 			return []Phase{{Name: "matrix", Run: c08Run}}
 		},
-		MinObserved: []string{"connections_checked", "onclose_events", "handler_exits_recorded", "eof_withheld_until_release_observed", "just_dispatched_endings_checked", "endings_with_a_starttls_handshake_pending", "connections_closed_while_another_connection_waits_for_its_handler", "connections_with_failed_writes_next_to_a_parked_handler", "tls_connections_ended_before_the_handshake", "endings_with_parked_handlers_and_a_starttls_handshake_pending", "endings_of_connections_upgraded_while_handlers_were_parked"},
+		MinObserved: []string{"connections_checked", "onclose_events", "handler_exits_recorded", "eof_withheld_until_release_observed", "just_dispatched_endings_checked", "endings_with_a_starttls_handshake_pending", "connections_closed_while_another_connection_waits_for_its_handler", "connections_with_failed_writes_next_to_a_parked_handler", "tls_connections_ended_before_the_handshake", "endings_with_parked_handlers_and_a_starttls_handshake_pending", "endings_of_connections_upgraded_while_handlers_were_parked", "stop_endings_on_a_server_without_panic_recovery"},
 	})
 }
 
@@ -706,6 +706,8 @@ func c08BeforeTheHandshake(c *Ctx, wd *c08World, round int) {
 	c.Count("tls_connections_ended_before_the_handshake", int64(opened-1))
 }
 
+var c08NoRecCtr atomic.Int64
+
 func c08Run(c *Ctx) { c08RunWith(c, 0, 0) }
 
 // c08RunWith runs the matrix; writeEntries > 0 shrinks the "writing" handlers' output
@@ -772,7 +774,12 @@ func c08RunWith(c *Ctx, writeEntries, sweeps int) {
 					c08OneCell(c, wd, s, cell, nil)
 					s.StopWithin(patience)
 				case "stop":
-					s, err := startSrv(SrvCfg{TLS: tc}, wd.register)
+					// every other stop-ending server runs without panic recovery (nothing panics in these cells)
+					noRec := c08NoRecCtr.Add(1)%2 == 0
+					if noRec {
+						c.Count("stop_endings_on_a_server_without_panic_recovery", 1)
+					}
+					s, err := startSrv(SrvCfg{TLS: tc, DisableRecover: noRec}, wd.register)
 					if err != nil {
 						c.Inconclusive(err.Error())
 						return
